@@ -90,7 +90,7 @@ def check_prepare(cfg, form):
     return bad
 
 
-SPECS = ["FLEX", "NONE", "nomask", "allfalse", "M", "Mraw", "M2"]
+SPECS = ["FLEX", "NONE", "nomask", "allfalse", "M", "Mraw", "M2", "Msame"]
 
 
 def mask_for(spec, cfg, other_cfg):
@@ -142,7 +142,16 @@ def expected_accept(pspec, cspec, pm, cmk, pc, cc):
 
 
 def check_accept(pc, cc, pspec, cspec):
-    pm, cmk = mask_for(pspec, pc, cc), mask_for(cspec, cc, pc)
+    if pspec == "Msame":
+        return None, []  # 'Msame' is a consumer-side spec: the consumer hands in the very same array OBJECT as the producer
+    pm = mask_for(pspec, pc, cc)
+    if cspec == "Msame":
+        if not isinstance(pm, np.ndarray) or expected_locs(pc)[0] != expected_locs(cc)[0]:
+            return None, []
+        cmk = pm
+        cspec = "Mraw"
+    else:
+        cmk = mask_for(cspec, cc, pc)
     if pm is None or cmk is None:
         return None, []
     want = expected_accept(pspec, cspec, pm, cmk, pc, cc)
